@@ -84,6 +84,18 @@ LOSSES = {
 WEIGHTED = ("custom", "inverse_sample_covariance", "inverse_unbiased_covariance")
 
 
+
+LEAN_EXTRA_SOURCES = ("C13Gen.lean",)
+LEAN_EXTRA_TARGETS = ("QGen.C13",)
+
+
+def translate(ctx):
+    """regenerate lean/QGen/C13.lean from /repo's sources (c13_translate.py); QProps/C13.lean proves the discipline the model
+    assumes about the regenerated tables"""
+    import c13_translate
+    return c13_translate.translate()
+
+
 # ----------------------------------------------------------------------------- values: normalise / compare / digest
 def norm(x, W=None):
     """observable value of anything an operation can return, as a nested structure of tagged tuples"""
@@ -1818,11 +1830,11 @@ def _correspondence(ctx):
                 v = float(loss.value(var))
             except Exception as e:  # noqa
                 v = "err"
-            dw = _invcov(data, mode) if mode in WEIGHTED[1:] else None
+            dw = _invcov(data, mode) if mode in WEIGHTED[1:] + ("unbiased_inverse_covariance",) else None
             A, b = qt.calc_matA(), qt.calc_vecB()
             qv = np.concatenate([p for _, p in data])
             toks.append("|".join([{"identity": "i", "custom": "c", "inverse_sample_covariance": "v",
-                                   "inverse_unbiased_covariance": "v", "unbiased_inverse_covariance": "u"}[mode],
+                                   "inverse_unbiased_covariance": "v", "unbiased_inverse_covariance": "v"}[mode],
                                   _wtxt(ow), _wtxt(dw), "1" if grad else "0", qlist(A.flatten()), qlist(b), qlist(qv)]))
             vals.append(v)
             modeseq.append(mode)
